@@ -54,15 +54,17 @@ def otherNs : Str := "##other".toList
 def localNs : Str := "##local".toList
 def targetNs : Str := "##targetNamespace".toList
 
+/-- `parent_namespace or None`: an empty parent namespace counts as absent -/
+def targetOf (pns : Option Str) : Option Str :=
+  match pns with
+  | some p => if p.isEmpty then none else some p
+  | none => none
+
 /-- one token of the `namespace` metadata (`for ns in namespace.split()`) -/
 def resolveToken (pns : Option Str) (tok : Str) : Str :=
-  -- `parent_namespace or X`
-  let por (x : Str) : Str := match pns with
-    | some p => if p.isEmpty then x else p
-    | none => x
-  if tok = targetNs then por anyNs
+  if tok = targetNs then (targetOf pns).getD anyNs          -- `parent_namespace or "##any"`
   else if tok = localNs then []
-  else if tok = otherNs then '!' :: por []
+  else if tok = otherNs then '!' :: (targetOf pns).getD []   -- `f"!{parent_namespace or ''}"`
   else tok
 
 /-- the loop of `resolve_namespaces`; the Python result is `tuple(set(..))`: its order and
@@ -76,6 +78,32 @@ def resolveNamespaces (e : Env) (inherits : Bool) (ns pns : Option Str) : List S
   match ns with
   | none | some [] => []
   | some s => resolveTokens pns (pySplitWs e s)
+
+/-! ### the decision table of wildcard namespaces -/
+
+/-- what one token of the `namespace` metadata admits, as xsdata encodes it
+(`uri` = namespace of the element, `none` = unqualified) -/
+def tokenAllows (pns : Option Str) (tok : Str) (uri : Option Str) : Bool :=
+  if tok = anyNs then true
+  else if tok = localNs then uri.isNone
+  else if tok = targetNs then (match targetOf pns with | some t => uri = some t | none => true)
+  else if tok = otherNs then (match targetOf pns with | some t => uri ≠ some t | none => true)
+  else uri = some tok
+
+/-- XSD 1.0 (2nd ed.) §3.10.4 "Wildcard allows Namespace Name" for one token, with
+`target` the target namespace of the schema (`none` = absent) -/
+def xsdTokenAllows (target : Option Str) (tok : Str) (uri : Option Str) : Bool :=
+  if tok = anyNs then true
+  else if tok = localNs then uri.isNone
+  else if tok = targetNs then uri = target
+  else if tok = otherNs then uri.isSome && uri ≠ target
+  else uri = some tok
+
+/-- a namespace name that cannot be confused with the encodings of `resolve_namespaces`:
+not empty, not starting with `!`, not starting with `#` (so none of the `##…` keywords) -/
+def plainNs (u : Str) : Bool := !u.isEmpty && u.head? ≠ some '!' && u.head? ≠ some '#'
+
+def isKeyword (tok : Str) : Bool := tok = anyNs || tok = localNs || tok = targetNs || tok = otherNs
 
 /-! ### the normal form of `≈ws` -/
 
